@@ -336,6 +336,15 @@ impl World {
             Fault::WrongAad(b) => aad = b.0.clone(),
             Fault::Garbage(b) => bytes = b.0.clone(),
             Fault::TagExtend(b) => bytes.extend_from_slice(b),
+            Fault::PlaintextAsBody(i, with_tag) => {
+                if let Some(o) = other(*i) {
+                    if o.ct.len() >= nt && bytes.len() >= nt {
+                        let tag = if *with_tag { o.ct[o.ct.len() - nt..].to_vec() } else { bytes[body_len..].to_vec() };
+                        bytes = o.pt.clone();
+                        bytes.extend_from_slice(&tag);
+                    }
+                }
+            }
             Fault::ByteSet(f, idx, val) => {
                 let (start, len) = match f {
                     Field::Ct => (0, body_len),
@@ -386,6 +395,7 @@ impl World {
             Fault::Garbage(_) => "garbage",
             Fault::TagExtend(_) => "tag_extend",
             Fault::ByteSet(..) => "byte_set",
+            Fault::PlaintextAsBody(..) => "plaintext_as_body",
         }
     }
 
@@ -821,6 +831,8 @@ impl World {
             variants.push(Fault::SpliceTag(i));
             variants.push(Fault::SpliceAad(i));
             variants.push(Fault::SwapCt(i));
+            variants.push(Fault::PlaintextAsBody(i, true));
+            variants.push(Fault::PlaintextAsBody(i, false));
         }
         let p = self.p;
         for (vi, fault) in variants.iter().enumerate() {
@@ -1322,6 +1334,7 @@ fn fault_brief(f: &Fault) -> String {
         Fault::WrongAad(b) => format!("WrongAad({}B)", b.len()),
         Fault::Garbage(b) => format!("Garbage({}B)", b.len()),
         Fault::TagExtend(b) => format!("TagExtend({}B)", b.len()),
+        Fault::PlaintextAsBody(i, t) => format!("PlaintextAsBody({}, {})", i, t),
         other => format!("{:?}", other),
     }
 }
